@@ -156,6 +156,7 @@ def check_rejections(ck, prog, rule, only_impls=None, only_names=None):
             if impl not in cache:
                 cache[impl] = message_sites(fn)
             sites = cache[impl].get(msg, [])
+            n += 1
             if not sites:
                 ck.bad(rule, inst, "no live rejection with message %r in %s: this decoder copy does not perform "
                                    "the validation (after pruning constant-false conditions)" % (msg, short), where(fn))
@@ -173,7 +174,6 @@ def check_rejections(ck, prog, rule, only_impls=None, only_names=None):
                     break
                 if best_missing is None or len(missing) < len(best_missing[0]):
                     best_missing = (missing, b, ss)
-            n += 1
             if not okk:
                 missing, b, ss = best_missing
                 ck.bad(rule, inst, "rejection %r exists in %s but none of its sites is guarded by the required condition(s) %s; "
